@@ -33,6 +33,39 @@
 (* MCConfSyntax checks  Meaning(Parse(Render(t, l))) = Meaning(t).         *)
 (*                                                                         *)
 (* A string is a sequence of byte codes 1..255.                            *)
+(*                                                                         *)
+(* Where the 14-line grammar is silent, Render only produces what follows  *)
+(* (the reading under which the parser as it stands is not blamed), and    *)
+(* everything else is simply not generated:                                *)
+(*  R1 a string is a bare word iff it is non-empty and consists of bare    *)
+(*     characters; otherwise it is quoted.  Inside quotes: printable ASCII *)
+(*     other than " and \ and bytes >= 128 may stand for themselves; the   *)
+(*     escapes are \a \b \f \n \r \t \v, \xHH (exactly two hex digits,    *)
+(*     either case), \" and \\.  Control bytes and 127 are always escaped. *)
+(*     Not generated: NUL, \xH, \0, any other escape, raw newlines.        *)
+(*  R2 names are strings (quoted names allowed); the empty name and names  *)
+(*     differing only in letter case within one object are not generated   *)
+(*     for the real parser (Meaning folds case, as the code does).         *)
+(*  R3 every entry has exactly one terminator: ';', a newline (LF or CR LF,*)
+(*     possibly after a // comment), or - for the last entry of a nested   *)
+(*     object - nothing before the closing brace.  The last top-level      *)
+(*     entry has an explicit terminator: end of file directly after a      *)
+(*     value is not generated (DESIGN.md section 9).  No ";;".             *)
+(*  R4 a newline is plain white space before an entry's name, after '{',   *)
+(*     before '}', anywhere inside '(' ')', and at the end of the file; it *)
+(*     is never put between name and value, host and service, or around    *)
+(*     the commas of a bare comma list (there it would be a terminator).   *)
+(*  R5 C comments may appear wherever white space may, also touching the   *)
+(*     neighbouring tokens; comments spanning lines only where R4 allows a *)
+(*     newline.  C++ comments only where a newline may follow, or as the   *)
+(*     very last thing in the file.  Blanks are space, tab, CR (before LF).*)
+(*  R6 two strings are separated by at least one blank or comment; next to *)
+(*     a punctuation character the gap may be empty ("x{a b}", "l(a,b);"). *)
+(*  R7 lists: "( )" with any number of items, bare comma list with at      *)
+(*     least two; no trailing comma.  Empty objects "{}" are generated     *)
+(*     (tests/coverage-1.conf uses one).                                   *)
+(*  R8 an entry with the same name but another kind is another node (both  *)
+(*     exist); same name and kind: the later value wins; objects merge.    *)
 (***************************************************************************)
 EXTENDS Naturals, Sequences, FiniteSets, TLC
 
